@@ -68,4 +68,16 @@ ExitCode(sameParams, sameMode, sameNumber, counts) ==
   ELSE 0
 
 DiffCount(a, b) == Cardinality({i \in 1..Len(a) : a[i] # b[i]})
+
+(* ---- directory mode of the comparison tool ------------------------------------------------ *)
+(* Two directories hold the same set of picture numbers; the pairs are compared in increasing  *)
+(* number order, codes[i] being the verdict (ExitCode above) of the i-th pair.  The property:  *)
+(* the tool says "identical" (exit 0) exactly when EVERY pair is identical.  What it exits     *)
+(* with otherwise (the verdict of the last differing pair) and the summary line are the tool's *)
+(* documented behaviour, carried here as predictions that are compared but only logged.        *)
+DirAllIdentical(codes) == \A i \in 1..Len(codes) : codes[i] = 0
+DirExit(codes) ==
+  LET nz == {i \in 1..Len(codes) : codes[i] # 0}
+  IN IF nz = {} THEN 0 ELSE codes[CHOOSE i \in nz : \A j \in nz : j <= i]
+DirNumDifferent(codes) == Cardinality({i \in 1..Len(codes) : codes[i] # 0})
 =============================================================================
